@@ -59,7 +59,16 @@ var (
 	internTab  = map[string]string{}
 	internDefs []string
 	internCase int
+	internOut  int // definitions already printed
 )
+
+// flushDefs prints the byte-string definitions made since the last call: every STEP line is preceded by the
+// definitions it uses, so the history of a case stays usable when the process dies in the middle of it
+func flushDefs(out io.Writer) {
+	for ; internOut < len(internDefs); internOut++ {
+		fmt.Fprintln(out, internDefs[internOut])
+	}
+}
 
 func coqBytes(b []byte) string {
 	if len(b) == 0 {
@@ -992,6 +1001,7 @@ func (rn *runner) coqHdr(hd tmconsensus.Header, hashOK bool, cur, next valset) s
 // printStep prints one step; in concurrent mode the operation is not modelled (the batches have no sequential
 // counterpart), so only the observation is kept.
 func (rn *runner) printStep(format string, args ...interface{}) {
+	flushDefs(rn.out)
 	if concurrentMode {
 		fmt.Fprintf(rn.out, "CSTEP @@ %s\n", args[len(args)-1])
 		return
@@ -1708,10 +1718,15 @@ func (rn *runner) doSeqActionSig(kind int, target string, sb, sig []byte) {
 		name = "MActPrecommit"
 	}
 	rn.touched[hr{h, r}] = true
+	opText := fmt.Sprintf("(%s %s %s)", name, coqBytes([]byte(target)), rn.w.desc(sig))
+	if !concurrentMode {
+		flushDefs(rn.out)
+		fmt.Fprintf(rn.out, "ATTEMPT %s\n", opText) // if the kernel dies on it, this is the operation that killed it
+	}
 	rn.sendAction(act)
 	rn.lastAct = &actRec{kind, target, sig}
 	rn.stats[fmt.Sprintf("sm_action_%d", kind)]++
-	rn.printStep("STEP (%s %s %s) @@ 0 @@ %s\n", name, coqBytes([]byte(target)), rn.w.desc(sig), rn.observe())
+	rn.printStep("STEP %s @@ 0 @@ %s\n", opText, rn.observe())
 }
 
 // seqAction: one random action of the state machine in sequential mode
@@ -1779,9 +1794,7 @@ func (rn *runner) doActionPH(ph tmconsensus.ProposedHeader, coq string) {
 
 // hungExit ends the process: a blocked kernel goroutine cannot be waited for
 func (rn *runner) hungExit() {
-	for _, d := range internDefs {
-		fmt.Fprintln(rn.out, d)
-	}
+	flushDefs(rn.out)
 	fmt.Fprintf(rn.out, "END\n")
 	if f, ok := rn.out.(*os.File); ok {
 		f.Sync()
@@ -2203,6 +2216,7 @@ func runCase(idx int, seed uint64, nOps int, out io.Writer, stats map[string]int
 	rn.startMirror()
 	internTab = map[string]string{}
 	internDefs = nil
+	internOut = 0
 	internCase = idx
 	fmt.Fprintf(out, "CASE %d %d\nINIT %d %s\n", idx, seed, initH, genesis.coq())
 	if concurrentMode {
@@ -2229,9 +2243,7 @@ func runCase(idx int, seed uint64, nOps int, out io.Writer, stats map[string]int
 			stats["final_round_nonzero"]++
 		}
 	}
-	for _, d := range internDefs {
-		fmt.Fprintln(out, d)
-	}
+	flushDefs(out)
 	fmt.Fprintf(out, "END\n")
 	rn.mcancel()
 	rn.m.Wait()
